@@ -69,16 +69,20 @@ def argminFirst : List Rat → Option Nat
 
 /-- `get_unit_labels_and_distances` for a non-simple provenance: `rowsOf u` = rows present when only
 unit `u` is switched on (row indices, ascending).  Per unit and validation point: label and distance
-of the first row of minimal distance among the unit's rows.  `dist[row][j]`. -/
-def unitReduce (rowsOf : List (List Nat)) (labels : List Nat) (dist : List (List Rat)) (nTest : Nat) :
-    Except Err (List (List Nat) × List (List Rat)) := do
-  let per ← rowsOf.mapM (fun rows => do
-    let cols ← (List.range nTest).mapM (fun j => do
+of the first row of minimal distance among the unit's rows.  `dist[row][j]`.
+A unit that owns no row gets the null label (`nullLabel` = number of classes, the index of the null
+row the kernel appends to the utilities) at infinite distance; only the order of distances matters, so
+infinity is rendered as a value larger than every distance in the matrix. -/
+def unitReduce (rowsOf : List (List Nat)) (labels : List Nat) (dist : List (List Rat)) (nTest : Nat)
+    (nullLabel : Nat) : List (List Nat) × List (List Rat) :=
+  let big : Rat := (dist.flatten.foldl max 0) + 1
+  let per := rowsOf.map (fun rows =>
+    let cols := (List.range nTest).map (fun j =>
       let gd := rows.map (fun r => (dist.getD r []).getD j 0)
       match argminFirst gd with
-      | none => throw Err.valueError        -- "attempt to get argmin of an empty sequence"
-      | some k => pure (labels.getD (rows.getD k 0) 0, gd.getD k 0))
-    pure (cols.map (·.1), cols.map (·.2)))
-  pure (per.map (·.1), per.map (·.2))
+      | none => (nullLabel, big)
+      | some k => (labels.getD (rows.getD k 0) 0, gd.getD k 0))
+    (cols.map (·.1), cols.map (·.2)))
+  (per.map (·.1), per.map (·.2))
 
 end Ds.Kernel
